@@ -30,6 +30,9 @@ type Failure struct {
 	Message string      `json:"message"` // human readable detail
 	History interface{} `json:"history,omitempty"`
 	Regions []string    `json:"regions,omitempty"` // names of known-finding regions the *case* lies in
+	// Fatal: the code under test is left in a state in which the process cannot usefully go on (e.g. a goroutine spinning
+	// for ever inside it): the failure file is written and the process exits at once, without shrinking.
+	Fatal bool `json:"-"`
 }
 
 func Failf(symptom, format string, args ...interface{}) *Failure {
@@ -345,6 +348,11 @@ func Main(t *testing.T, s Spec) {
 		st.Failures++
 		st.mu.Unlock()
 		writeFail(s.ID, c, f)
+		if f.Fatal {
+			st.flush()
+			fmt.Printf("VF-FAIL property=%s symptom=%s: %s\n", s.ID, f.Symptom, f.Message)
+			os.Exit(1)
+		}
 		rt.Fatalf("VF-FAIL property=%s symptom=%s: %s", s.ID, f.Symptom, f.Message)
 	})
 }
@@ -418,6 +426,9 @@ func replay(t *testing.T, s Spec, st *stats) {
 		if f != nil {
 			failed++
 			last = f
+			if f.Fatal {
+				break
+			}
 		}
 	}
 	sym, msg := "", ""
